@@ -41,6 +41,34 @@ func isAtomicCall(call ssa.CallInstruction, names ...string) bool {
 	return false
 }
 
+// isLoadWrapper: a call of a one-argument helper of the repository that does nothing but return the atomic
+// LoadPointer of its parameter (converted): the call is that load.
+func isLoadWrapper(call ssa.CallInstruction) bool {
+	f := call.Common().StaticCallee()
+	if f == nil || len(f.Blocks) != 1 || len(f.Params) != 1 || len(call.Common().Args) != 1 {
+		return false
+	}
+	ret, ok := f.Blocks[0].Instrs[len(f.Blocks[0].Instrs)-1].(*ssa.Return)
+	if !ok || len(ret.Results) != 1 {
+		return false
+	}
+	ld, ok := stripConv(ret.Results[0]).(*ssa.Call)
+	if !ok || !isAtomicCall(ld, "LoadPointer") || len(ld.Call.Args) != 1 || stripConv(ld.Call.Args[0]) != ssa.Value(f.Params[0]) {
+		return false
+	}
+	for _, ins := range f.Blocks[0].Instrs {
+		switch x := ins.(type) {
+		case *ssa.Store, *ssa.Go, *ssa.Defer, *ssa.Send, *ssa.MapUpdate:
+			return false
+		case *ssa.Call:
+			if x != ld {
+				return false
+			}
+		}
+	}
+	return true
+}
+
 // rootsOf follows conversions, field/element addressing and loads back to the calls/params a value derives from.
 func atomicLoadsBehind(v ssa.Value, seen map[ssa.Value]bool, out map[*ssa.Call]bool, others *[]string) {
 	if v == nil || seen[v] {
@@ -49,7 +77,7 @@ func atomicLoadsBehind(v ssa.Value, seen map[ssa.Value]bool, out map[*ssa.Call]b
 	seen[v] = true
 	switch x := v.(type) {
 	case *ssa.Call:
-		if isAtomicCall(x, "LoadPointer") {
+		if isAtomicCall(x, "LoadPointer") || isLoadWrapper(x) {
 			out[x] = true
 			return
 		}
@@ -294,7 +322,7 @@ func runC17(c *Ctx) {
 		nLoadCalls := 0
 		for _, b := range read.Blocks {
 			for _, ins := range b.Instrs {
-				if call, ok := ins.(ssa.CallInstruction); ok && isAtomicCall(call, "LoadPointer") {
+				if call, ok := ins.(ssa.CallInstruction); ok && (isAtomicCall(call, "LoadPointer") || isLoadWrapper(call)) {
 					nLoadCalls++
 				}
 			}
